@@ -51,7 +51,7 @@ def close(a, b, tol):
 class C04(Property):
     ID = "C04"
     SESSIONS = ["s0", "s1"]
-    RUNS = {"quick": (1200, 1200), "thorough": (20000, 20000)}
+    RUNS = {"quick": (4000, 4000), "thorough": (80000, 80000)}
 
     def config(self, rng, tier, faulty):
         cfg = {
